@@ -16,7 +16,7 @@
    oracle is a function of the id.  [wf] spells out the property's own quantifier (closed
    request, closed destination) plus the environment hypotheses the proof needs (C04_wf_meaning). *)
 From Coq Require Import NArith List Bool.
-From DvcData Require Import Base.Val Model.Transfer Proofs.TransferBase Proofs.TransferStatus Proofs.TransferLoop Proofs.TransferProofs.
+From DvcData Require Import Base.Val Model.Transfer Gen.TransferGen Proofs.TransferBase Proofs.TransferStatus Proofs.TransferLoop Proofs.TransferProofs Proofs.TransferGenTie.
 Import ListNotations.
 Open Scope N_scope.
 
@@ -122,3 +122,38 @@ Print Assumptions C04_retry_after_any_round.
 Theorem C04_observed_orders_admissible : forall p, ord_ok (by_priority p).
 Proof. exact by_priority_ok. Qed.
 Print Assumptions C04_observed_orders_admissible.
+
+(* ---- the tie to the source text ------------------------------------------------------------
+   Gen/TransferGen.v is regenerated on every run from hashfile/transfer.py by symbolic execution
+   (translator/transferunit.py, fail-closed on unknown statement shapes).  The model's directory
+   loop makes the decisions of the source: *)
+Theorem C04_source_dir_step : forall i missing D entries files failed,
+  let g := g_dir_step (add_events i) (add_failed i) missing D entries files failed in
+  let m := dir_step i missing D entries files failed in
+  fst (fst (fst g)) = fst (fst (fst m)) /\ snd (fst (fst g)) = snd (fst (fst m)) /\ snd g = snd m /\
+  (forall o, In o (snd (fst g)) <-> In o (snd (fst m))).
+Proof. exact gen_dir_step_ok. Qed.
+Print Assumptions C04_source_dir_step.
+
+Theorem C04_source_finish : forall i new missing,
+  let r := dir_loop i missing (t_dord i (filter is_dir_oid new)) (filter is_file_oid new) [] in
+  d_ok r = true ->
+  let g := g_finish (add_events i) (add_failed i) [SrcIndexClear]
+             (fun succ => if t_dnoop i then [] else map (fun p => IndexUpdate (fst p) (snd p)) succ)
+             (d_events r) (d_files r) (d_failed r) (d_succ r) in
+  fst (do_transfer i new missing) = fst g /\
+  exists fl, snd (do_transfer i new missing) = Some fl /\ forall o, In o fl <-> In o (snd g).
+Proof. exact gen_finish_ok. Qed.
+Print Assumptions C04_source_finish.
+
+Theorem C04_source_split_and_lookup : forall i new missing D,
+  dir_loop i missing (t_dord i (g_split_dirs is_dir_oid new)) (g_split_files is_dir_oid new) [] =
+  dir_loop i missing (t_dord i (filter is_dir_oid new)) (filter is_file_oid new) [] /\
+  find_tree i D = first_some i g_find_order D.
+Proof. intros. split; [apply gen_split_ok|apply gen_find_order_ok]. Qed.
+Print Assumptions C04_source_split_and_lookup.
+
+(* _add._error: with a single writer every upload error counts as a failure *)
+Theorem C04_source_error_counts : forall is_permission_error, g_error_counts is_permission_error false = true.
+Proof. exact gen_error_single_writer. Qed.
+Print Assumptions C04_source_error_counts.
